@@ -177,9 +177,11 @@ func NewWorld(cfg Config) *World {
 		panic(err)
 	}
 	ts := int64(cfg.TickSpacing)
-	c0, err := clmath.RoundDownTickToSpacing(c0raw, ts)
-	if err != nil {
-		panic(err)
+	// floor to the spacing, computed here and not with the repository's RoundDownTickToSpacing: the range table must
+	// not follow a wrong rounding of the code under test
+	c0 := c0raw / ts * ts
+	if c0raw%ts != 0 && c0raw < 0 {
+		c0 -= ts
 	}
 	u := cfg.RangeUnit
 	if u%ts != 0 || u <= 0 {
